@@ -1,6 +1,8 @@
 import Blue.Proofs.MergingMain
 import Blue.Proofs.MergingLink
 import Blue.Proofs.MergingOver
+import Blue.Proofs.MergingDupMain
+import Blue.Proofs.Conserve
 import Blue.Proofs.ConcatMain
 import Blue.Proofs.ConcatLink
 import Blue.Proofs.BoundsMain
@@ -45,11 +47,13 @@ open Blue.Cursor Blue.Cursor.Filtered
 /-- **Merging cursor = one cursor over the sorted union.**
     HYPOTHESIS (`Family`): the merged list `M` (entries tagged with the child that owns them) is
     strictly sorted, i.e. the children are sorted and **pairwise distinct in (key, timestamp)**.
-    With the same (key, ts) in two children the cursor still shows a merge of the children — the
-    (key, ts) sequence is that of the sorted union — but *which* child's value is shown for a
-    duplicated (key, ts) can differ between the forward and the backward pass, so there is no single
-    list to be equal to; the harness explores that region in its own stream (`mergedup`), comparing
-    the implementation with the model exactly and with "some merge of the children" as oracle. -/
+    The same entry in several children is `merging_refines_dups` below.  What stays outside every
+    theorem is the *malformed* case in which two children hold the same (key, ts) with DIFFERENT
+    payloads: then the comparator is not a strict total order on entries (two different entries,
+    neither less than the other), and which child's value is shown depends on the heap's
+    tie-breaking and can differ between the forward and the backward pass; the harness explores
+    that region in its own streams (`mergedup`, `stackmal`), comparing the implementation with the
+    model exactly and recording which child wins. -/
 theorem merging_refines {E : Type} {lt : E → E → Bool} {M : List (E × Nat)} {k : Nat}
     (st : StrictTotal lt) (fam : Family lt M k) (cs : List (Ref E))
     (hcs : (cs.map (·.xs)).Perm ((List.range k).map (childList M)))
@@ -70,6 +74,41 @@ theorem merging_over {E : Type} (lt : E → E → Bool) (st : StrictTotal lt) {M
     (hbeh : cs.map (behA A C) = rs.map (behA A (RefCur E))) :
     BehEq A (MergingC.cur C lt) (MergingC.new C lt cs) (RefCur E) ⟨M.map (·.1), 0⟩ :=
   Blue.Cursor.merging_over lt st fam hA cs rs hkids hbeh
+
+/-- **Merging cursor over children that may hold the SAME entry** (the window of a flush, where the
+    flushed memtable is visible both as the immutable memtable and as its file; identical files).
+    HYPOTHESIS (`FamilyW`): every one of the `k` children is strictly sorted, and `M` is their
+    merge with multiplicity, weakly sorted (equal entries adjacent), tagged with owners; which of
+    the equal entries is attributed to which child is immaterial (any attribution will do).  Under
+    a strict total order two entries neither of which is less than the other are equal
+    (`StrictTotal.eq_of_not_lt`), so this is exactly "duplicates are identical entries".
+    For every finite program the cursor shows after every call what ONE reference cursor over the
+    merge with multiplicity shows: a duplicated entry is shown once per child that holds it, in a
+    row, in both directions. -/
+theorem merging_refines_dups {E : Type} {lt : E → E → Bool} {M : List (E × Nat)} {k : Nat}
+    (st : StrictTotal lt) (fam : FamilyW lt M k) (cs : List (Ref E))
+    (hcs : (cs.map (·.xs)).Perm ((List.range k).map (childList M)))
+    (ops : List (Op E)) (hops : ∀ pred, Op.seek pred ∈ ops → Mono lt pred) :
+    (Merging.new lt cs).kv = (Ref.mk (M.map (·.1)) 0).kv ∧
+    Merging.run lt (Merging.new lt cs) ops = Ref.run ⟨M.map (·.1), 0⟩ ops :=
+  Blue.Cursor.merging_refines_dups st fam cs hcs ops hops
+
+theorem merging_over_dups {E : Type} (lt : E → E → Bool) (st : StrictTotal lt) {M : List (E × Nat)} {k : Nat}
+    (fam : FamilyW lt M k) {A : (E → Bool) → Prop} (hA : ∀ p, A p → Mono lt p)
+    {C : Cur E} (cs : List C.σ) (rs : List (Ref E))
+    (hkids : (rs.map (·.xs)).Perm ((List.range k).map (childList M)))
+    (hbeh : cs.map (behA A C) = rs.map (behA A (RefCur E))) :
+    BehEq A (MergingC.cur C lt) (MergingC.new C lt cs) (RefCur E) ⟨M.map (·.1), 0⟩ :=
+  Blue.Cursor.merging_over_dups lt st fam hA cs rs hkids hbeh
+
+/-- the list of `merging_refines_dups` is the children's entries *with multiplicity* -/
+theorem merged_with_multiplicity {E : Type} {lt : E → E → Bool} {M : List (E × Nat)} {k : Nat}
+    (fam : FamilyW lt M k) : (((List.range k).map (childList M)).flatten).Perm (M.map (·.1)) :=
+  Blue.Cursor.children_perm_merged k M fam.owner
+
+/-- the duplicate-free case is a special case -/
+theorem family_is_familyW {E : Type} {lt : E → E → Bool} {M : List (E × Nat)} {k : Nat}
+    (st : StrictTotal lt) (fam : Family lt M k) : FamilyW lt M k := fam.toW st
 
 /-! ## concatenation -/
 
@@ -258,6 +297,42 @@ example :
       omega)).2
   rw [h]; decide
 
+/-- three children `[1, 4] [1, 2, 4, 5] [4]`: the entry 1 is in two children, the entry 4 in all three
+    (one weakly sorted merged list; any attribution of the equal entries to their holders will do) -/
+def demoMW : List (Nat × Nat) := [(1, 0), (1, 1), (2, 1), (4, 0), (4, 1), (4, 2), (5, 1)]
+
+theorem demo_familyW : FamilyW natLt demoMW 3 where
+  sorted := by decide
+  owner := by decide
+  child := by
+    intro j hj
+    rcases j with _ | _ | _ | j
+    · decide
+    · decide
+    · decide
+    · omega
+
+/-- `merging_refines_dups` applies to children with a copy in two and in three children, a program
+    with a seek onto the triplicated entry and reversals inside the run of copies, and says
+    something: the copies are shown one after the other, in both directions -/
+example :
+    Merging.run natLt (Merging.new natLt [⟨[1, 4], 0⟩, ⟨[1, 2, 4, 5], 0⟩, ⟨[4], 0⟩])
+        [.next, .next, .next, .prev, .seek (fun e => decide (e ≥ 4)), .next, .prev, .prev, .next, .next, .next, .next,
+          .last, .prev, .prev, .prev, .prev, .next]
+      = [some 1, some 1, some 2, some 1, some 4, some 4, some 4, some 2, some 4, some 4, some 4, some 5,
+          none, some 5, some 4, some 4, some 4, some 4] := by
+  have h := (merging_refines_dups natLt_strictTotal demo_familyW [⟨[1, 4], 0⟩, ⟨[1, 2, 4, 5], 0⟩, ⟨[4], 0⟩]
+    (by decide) [.next, .next, .next, .prev, .seek (fun e => decide (e ≥ 4)), .next, .prev, .prev, .next, .next, .next, .next,
+          .last, .prev, .prev, .prev, .prev, .next]
+    (by
+      intro pred hp
+      simp only [List.mem_cons, List.not_mem_nil, or_false, reduceCtorEq, false_or, Op.seek.injEq] at hp
+      subst hp
+      intro a b hab ha
+      simp only [natLt, decide_eq_true_eq] at *
+      omega)).2
+  rw [h]; decide
+
 /-- `concat_refines`: children `[1, 2] [] [4, 5]`, a seek into the third child and reversals -/
 example :
     Concat.run (Concat.new [⟨[1, 2], 0⟩, ⟨[], 0⟩, ⟨[4, 5], 0⟩])
@@ -305,6 +380,10 @@ end Blue.Props.C11
 #print axioms Blue.Props.C11.merging_refines
 #print axioms Blue.Props.C11.merging_subst
 #print axioms Blue.Props.C11.merging_over
+#print axioms Blue.Props.C11.merging_refines_dups
+#print axioms Blue.Props.C11.merging_over_dups
+#print axioms Blue.Props.C11.merged_with_multiplicity
+#print axioms Blue.Props.C11.family_is_familyW
 #print axioms Blue.Props.C11.concat_refines
 #print axioms Blue.Props.C11.concat_subst
 #print axioms Blue.Props.C11.concat_over
